@@ -484,6 +484,7 @@ func prefixResolution(c *Ctx, rid string) {
 					ctxObj := info.Uses[id]
 					defaultsAt, prefixesAt := token.NoPos, token.NoPos
 					aliasDefault := false
+					adoptedAt := ""
 					ast.Inspect(fd.Body, func(m ast.Node) bool {
 						switch x := m.(type) {
 						case *ast.AssignStmt:
@@ -510,6 +511,16 @@ func prefixResolution(c *Ctx, rid string) {
 							}
 							if usesCtx && usesDef && defaultsAt == token.NoPos {
 								defaultsAt = x.Pos()
+								// the callee must copy the entries: a callee that stores the map it was handed (`*dst = *src`
+								// when dst is empty) makes the local context the shared table itself
+								if fn, ok := calleeOf(info, x).(*types.Func); ok {
+									if sf := p.SSA.FuncValue(fn); sf != nil {
+										if at := adoptsParamMap(sf); at != token.NoPos {
+											aliasDefault = true
+											adoptedAt = p.Pos(at)
+										}
+									}
+								}
 							}
 						case *ast.RangeStmt:
 							// for n, p := range <profile prefixes> { context[n] = p }   /  for k, v := range Default { context[k] = v }
@@ -538,6 +549,8 @@ func prefixResolution(c *Ctx, rid string) {
 						return true
 					})
 					switch {
+					case aliasDefault && adoptedAt != "":
+						r.Bad(rid, k, p.Pos(cl.Pos()), "the helper that merges the defaults into the expander's context stores the map it is handed instead of copying its entries ("+adoptedAt+"): the context is then the shared default prefix table itself, and the profile's prefixes are written into it")
 					case aliasDefault:
 						r.Bad(rid, k, p.Pos(cl.Pos()), "the expander's context aliases the shared default prefix table instead of copying it")
 					case defaultsAt == token.NoPos:
@@ -1116,4 +1129,50 @@ func readsNodeText(info *types.Info, n ast.Node) bool {
 		return true
 	})
 	return found
+}
+
+// adoptsParamMap: the function stores a map it received (as a map parameter or through a pointer parameter) into memory
+// that another parameter points to, or returns it: afterwards two owners share one map.
+func adoptsParamMap(fn *ssa.Function) token.Pos {
+	fromParam := func(v ssa.Value) *ssa.Parameter {
+		for i := 0; i < 6; i++ {
+			switch x := v.(type) {
+			case *ssa.Parameter:
+				return x
+			case *ssa.UnOp:
+				if x.Op != token.MUL {
+					return nil
+				}
+				v = x.X
+			case *ssa.ChangeType:
+				v = x.X
+			case *ssa.FieldAddr:
+				v = x.X
+			default:
+				return nil
+			}
+		}
+		return nil
+	}
+	for _, b := range fn.Blocks {
+		for _, ins := range b.Instrs {
+			switch x := ins.(type) {
+			case *ssa.Store:
+				if _, isMap := x.Val.Type().Underlying().(*types.Map); !isMap {
+					continue
+				}
+				src, dst := fromParam(x.Val), fromParam(x.Addr)
+				if src != nil && dst != nil && src != dst {
+					return x.Pos()
+				}
+			case *ssa.Return:
+				for _, res := range x.Results {
+					if _, isMap := res.Type().Underlying().(*types.Map); isMap && fromParam(res) != nil {
+						return x.Pos()
+					}
+				}
+			}
+		}
+	}
+	return token.NoPos
 }
